@@ -92,7 +92,12 @@ func (i *InmemStore) DeleteRange(min, max uint64) error {
 		i.lowIndex = max + 1
 	}
 	if max >= i.highIndex {
-		i.highIndex = min - 1
+		if min == 0 {
+			// min-1 would wrap around: nothing is left below the range
+			i.highIndex = 0
+		} else {
+			i.highIndex = min - 1
+		}
 	}
 	if i.lowIndex > i.highIndex {
 		i.lowIndex = 0
